@@ -392,7 +392,7 @@ func c15RefHashNumber(a, b *mbig.Int, index int, bitlen uint) *mbig.Int {
 func TestVerifC15HashNumber(t *testing.T) {
 	r := vkit.Start(t, "C15", "gethashnumber", 120*time.Second, 600*time.Second)
 	defer r.Finish()
-	r.Rule = "all (a,b in {nil,0,1,2^1024-1,2^2047}) x index 0..5 x bitlen 0..1100 (quick: step 1 up to 600, then boundary values); oracle: sum_j H(a,b,index,j)<<256j reference; IntHashSha256 on byte strings of length 0..100 in 3 patterns; non-trivial = distinct output"
+	r.Rule = "all (a,b in {nil,0,1,2^1024-1,2^2047}) x index 0..5 x bitlen 0..1100 (quick: step 1 up to 600, then boundary values); oracle: sum_j H(a,b,index,j)<<256j reference; plus every index below 4096 (thorough 65536) with a=12345 one of whose digest blocks 0..3 begins with a zero byte, at lengths that make that block the last and an inner one; IntHashSha256 on byte strings of length 0..100 in 3 patterns; non-trivial = distinct output"
 	vals := []*mbig.Int{nil, mbig.NewInt(0), mbig.NewInt(1), new(mbig.Int).Sub(c15Pow2(1024), mbig.NewInt(1)), c15Pow2(2047)}
 	var bitlens []uint
 	for b := uint(0); b <= 1100; b++ {
@@ -429,6 +429,45 @@ func TestVerifC15HashNumber(t *testing.T) {
 					r.Sample(map[string]any{"a": "2^1024-1", "b": "nil", "index": idx, "bitlens": len(bitlens)})
 				}
 			}
+		}
+	}
+	// digest blocks that begin with zero bytes: the expansion places every 256-bit digest in its own
+	// slot, whatever its numeric size.  The reference is used to FIND inputs one of whose blocks j = 0..3
+	// begins with a zero byte (about 1 in 64 indices), and those are compared for lengths that make that
+	// block an inner one and the last one.
+	{
+		a := mbig.NewInt(12345)
+		found, foundLong := 0, 0
+		for idx := 0; idx < vkit.Pick(4096, 65536); idx++ {
+			for j := 0; j < 4; j++ {
+				in := []*mbig.Int{a, mbig.NewInt(int64(idx)), mbig.NewInt(int64(j))}
+				h := c15RefHash(in, false)
+				if h.BitLen() > 248 {
+					continue
+				}
+				found++
+				if h.BitLen() <= 240 {
+					foundLong++
+				}
+				if _, mine := r.Next(); !mine {
+					continue
+				}
+				for _, bl := range []uint{uint(256*j) + 1, uint(256*j) + 255, uint(256 * (j + 1)), uint(256*(j+1)) + 1, uint(256*(j+1)) + 200, uint(256 * (j + 2)), 1100} {
+					r.Eval()
+					want := c15RefHashNumber(a, nil, idx, bl)
+					got := GetHashNumber(toG(a), nil, idx, bl)
+					r.Nontrivial(want.Text(16))
+					r.Outcome(fmt.Sprintf("GetHashNumber:block-with-leading-zero-byte:inner=%v", bl > uint(256*(j+1))))
+					if got.Go().Cmp(want) != 0 {
+						r.Violate("C15|gethashnumber!=reference|block-with-leading-zero-byte", fmt.Sprintf("a=12345 index=%d bitlen=%d (block %d begins with a zero byte): got %x want %x", idx, bl, j, got.Go(), want), map[string]any{"index": idx, "bitlen": bl, "block": j})
+					}
+				}
+			}
+		}
+		r.Bounds["blocks_with_leading_zero_byte"] = found
+		r.Bounds["blocks_with_two_leading_zero_bytes"] = foundLong
+		if found == 0 {
+			r.HarnessError("no digest block with a leading zero byte found")
 		}
 	}
 	for n := 0; n <= 100; n++ {
